@@ -383,6 +383,8 @@ def model_cases(rng, tier):
         yield c
     for c in genk_cases(rng, tier):
         yield c
+    for c in history_model_cases(rng_for(int(os.environ.get("VERIF_SEED", "0") or 0), PROP, "history-model"), tier):
+        yield c
     for c in toy_cases(rng, tier):
         yield c
     for c in prod_model_cases(rng, tier):
@@ -581,6 +583,320 @@ def toy_prop_cases(rng, tier):
                            (lambda P=P, Q=Q, z=z, r=r, s=s: chk_toy_noncanonical(P, Q, z, r, s)))
 
 
+
+# ------------------------------------------------------------------------------------------------
+# histories of calls, configurations in both orders, presentations (round c)
+#
+# An `op` is a JSON-able dict: {"op": "gen_k", "n", "d", "z", "hashf"} | {"op": "sign", "curve", "d", "z"} |
+# {"op": "verify", "curve", "q", "z", "r", "s"} | {"op": "recover", "curve", "z", "r", "s", "yp"};
+# "curve" is a 6-list of toy parameters or the name of a production curve.  A history is a list of ops executed in
+# order in THIS process on the cached generator objects; every result is compared with reference arithmetic that
+# knows nothing of the history (c01_ec.py, RFC 6979 with Python's hmac), and the last op also with a FRESH generator object.
+HASH_M = (1 << 61) - 1          # CPython: hash(int) is the residue modulo 2**61 - 1
+
+
+def _collide(v, lo, hi, js=(1, -1, 5, 2, -3)):
+    """values of [lo, hi) that differ from v by a multiple of the Python hash modulus"""
+    return [v + j * HASH_M for j in js if lo <= v + j * HASH_M < hi]
+
+
+def _curve_ref(cur):
+    return PROD[cur] if isinstance(cur, str) else ref_of(tuple(cur))
+
+
+def _curve_gen(cur, fresh=False):
+    if isinstance(cur, str):
+        from pycoin.ecdsa.secp256k1 import secp256k1_generator
+        from pycoin.ecdsa.secp256r1 import secp256r1_generator
+        g = {"secp256k1": secp256k1_generator, "secp256r1": secp256r1_generator}[cur]
+        if fresh:
+            g = type(g)(g._p, g._a, g._b, (g[0], g[1]), g._order)
+        return g
+    if fresh:
+        p, a, b, gx, gy, n = tuple(cur)
+        return Generator(p, a, b, (gx, gy), n)
+    return gen_of(tuple(cur))
+
+
+def _hashf(name):
+    return getattr(_hashlib, name or "sha256")
+
+
+def run_op(op, fresh=False, wrap=None):
+    """the implementation's canonical answer; wrap = a function applied to every int argument (presentations)"""
+    w = wrap or (lambda v: v)
+    kind = op["op"]
+    if kind == "gen_k":
+        if op.get("hashf"):
+            return call(lambda: int(deterministic_generate_k(w(op["n"]), w(op["d"]), w(op["z"]), _hashf(op["hashf"]))))
+        return call(lambda: int(deterministic_generate_k(w(op["n"]), w(op["d"]), w(op["z"]))))
+    g = _curve_gen(op["curve"], fresh)
+    if kind == "sign":
+        return call(lambda: tuple(int(v) for v in g.sign_with_recid(w(op["d"]), w(op["z"]))))
+    if kind == "verify":
+        q = (None, None) if op["q"] is None else (w(op["q"][0]), w(op["q"][1]))
+        return call(lambda: g.verify(q, w(op["z"]), (w(op["r"]), w(op["s"]))))
+    if kind == "recover":
+        yp = op.get("yp")
+        return call(lambda: [tuple(P) for P in g.possible_public_pairs_for_signature(w(op["z"]), (w(op["r"]), w(op["s"])), None if yp is None else w(yp))])
+    raise ValueError(kind)
+
+
+def ref_op(op):
+    """the required answer, from reference arithmetic; None = no requirement (outside the property's domain)"""
+    kind = op["op"]
+    if kind == "gen_k":
+        hf = _hashf(op.get("hashf"))
+        hs = hf().digest_size
+        n, d, z = op["n"], op["d"], op["z"]
+        if not (n >= 2 and 0 <= d < n and 0 <= z < 1 << (8 * hs)):
+            return None
+        return canon(E.rfc6979_k(n, d, z.to_bytes(hs, "big"), hf))
+    c = _curve_ref(op["curve"])
+    n, p = c.n, c.p
+    if kind == "sign":
+        d, z = op["d"], op["z"]
+        if not (1 <= d < n and 0 < z < 1 << 256) or not has_good_nonce(c, d, z):
+            return None
+        fg = _first_good_nonce(c, d, z, E.rfc6979_k(n, d, _z_octets(z)))
+        return None if fg is None else canon(fg[1])
+    if kind == "verify":
+        q = None if op["q"] is None else tuple(op["q"])
+        if not c.on_curve(q):
+            return None
+        return canon(op["z"] != 0 and c.verify(q, op["z"], op["r"], op["s"]))
+    if kind == "recover":
+        z, r, s, yp = op["z"], op["r"], op["s"], op.get("yp")
+        if not (1 <= r < n and 1 <= s < n and r < p):
+            return "[]"
+        ir = pow(r, -1, n)
+        pts = c.points_with_x(r)
+        if len(pts) == 2 and pts[0][1] == 0:
+            return None
+        if yp is not None:
+            pts = pts[1:] if yp & 1 else pts[:1]
+        return canon([_pt(c.add(c.mul(s * ir, R), c.mul(-z * ir, c.g))) for R in pts])
+    raise ValueError(kind)
+
+
+def chk_history(ops):
+    """history independence: every call of the sequence answers as the reference does, and as a fresh object does"""
+    for i, op in enumerate(ops):
+        want = ref_op(op)
+        if op["op"] == "sign" and want is None:
+            continue                      # no requirement / would not terminate: not called
+        got = run_op(op)
+        if want is not None and got != want:
+            alone = run_op(op, fresh=True) if op["op"] != "gen_k" else None
+            return {"kind": "result-depends-on-history" if i > 0 else "differs-from-reference", "index": i, "op": op,
+                    "impl": got, "reference": want, "fresh_object": alone, "history": ops[:i]}
+    last = ops[-1]
+    if last["op"] != "gen_k" and not (last["op"] == "sign" and ref_op(last) is None):
+        a, b = run_op(last), run_op(last, fresh=True)
+        if a != b:
+            return {"kind": "cached-object-differs-from-fresh-object", "op": last, "cached": a, "fresh": b, "history": ops[:-1]}
+    return None
+
+
+class _I(int):
+    """an int subclass (exotic but legal argument type)"""
+    __slots__ = ()
+
+
+class _IH(int):
+    """an int subclass with its own (legal, value-compatible but degenerate) hash"""
+    __slots__ = ()
+
+    def __hash__(self):
+        return 7
+
+
+def _as_bool(v):
+    return bool(v) if v in (0, 1) else v
+
+
+PRESENTATIONS = {"int_subclass": _I, "int_subclass_const_hash": _IH, "bool_for_0_1": _as_bool}
+
+
+def chk_presentation(op):
+    """presentation independence: int subclasses / bools / lists for tuples give the answer of the plain ints"""
+    base = run_op(op)
+    want = ref_op(op)
+    if op["op"] == "sign" and want is None:
+        return None
+    if want is not None and base != want:
+        return {"kind": "differs-from-reference", "op": op, "impl": base, "reference": want}
+    for name, w in PRESENTATIONS.items():
+        got = run_op(op, wrap=w)
+        if got != base:
+            return {"kind": "presentation-changes-the-answer", "presentation": name, "op": op, "plain": base, "presented": got}
+    if op["op"] == "verify" and op["q"] is not None:
+        g = _curve_gen(op["curve"])
+        for name, q in (("list_pair", list(op["q"])), ("Point", g.Point(*op["q"]) if _curve_ref(op["curve"]).on_curve(tuple(op["q"])) else None)):
+            if q is None:
+                continue
+            for sname, sig in (("tuple_sig", (op["r"], op["s"])), ("list_sig", [op["r"], op["s"]])):
+                got = call(lambda: g.verify(q, op["z"], sig))
+                if got != base:
+                    return {"kind": "presentation-changes-the-answer", "presentation": name + "/" + sname, "op": op, "plain": base, "presented": got}
+    return None
+
+
+def chk_key_presentation(d, z, tamper):
+    """Key.sign / Key.verify on BTC: bytes / bytearray / memoryview hashes and bytes / bytearray signatures agree, and
+    agree with the reference DER signature"""
+    from pycoin.symbols.btc import network as btc
+    c = PROD["secp256k1"]
+    h = _z_octets(z)
+    k = btc.keys.private(d)
+    r, s, _ = c.sig_from_nonce(d, z, E.rfc6979_k(c.n, d, h))
+    want = _der(r, s)
+    for name, hh in (("bytes", h), ("bytearray", bytearray(h)), ("memoryview", memoryview(h))):
+        got = call(k.sign, hh)
+        if got != canon(want):
+            return {"kind": "Key.sign-differs-from-reference", "hash_as": name, "impl": got, "reference": canon(want)}
+        sig = want if not tamper else want[:-1] + bytes([want[-1] ^ 1])
+        for sname, ss in (("bytes", sig), ("bytearray", bytearray(sig))):
+            got = call(k.verify, hh, ss)
+            if got != canon(not tamper):
+                return {"kind": "Key.verify-verdict", "hash_as": name, "sig_as": sname, "tampered": tamper, "impl": got}
+    return None
+
+
+def _sig_for(c, rng):
+    while True:
+        d = rng.randrange(1, c.n)
+        z = rng.getrandbits(256) or 1
+        k = rng.randrange(1, c.n)
+        sig = c.sig_from_nonce(d, z, k)
+        if sig is not None and has_good_nonce(c, d, z):
+            return d, z, sig
+
+
+def history_ops(rng, tier):
+    """generator of histories: (name, ops)"""
+    thorough = tier == "thorough"
+    reps = 6 if thorough else 1
+    big61 = [c for c in BIG if c.n > HASH_M]
+    mids = [c for c in BIG if 1 << 20 < c.n < HASH_M][:3]
+    toys = [SMALL[3], SMALL[8], SMALL[20]] + mids + big61
+    k1, r1 = SECP256K1["n"], SECP256R1["n"]
+    for _ in range(reps):
+        # --- nonce function: arguments colliding under hash(), in both orders, then the first call again
+        for n in [c.n for c in toys] + [k1, r1, N384, 2 ** 255 - 19]:
+            d = rng.randrange(1, min(n, max(2, n - HASH_M)) if n > HASH_M + 2 else n)
+            z = rng.getrandbits(250) + HASH_M * 8
+            base = {"op": "gen_k", "n": n, "d": d, "z": z}
+            hist = [base]
+            hist += [dict(base, z=v) for v in _collide(z, 0, 1 << 256)]
+            hist += [dict(base, d=v) for v in _collide(d, 1, n)]
+            hist += [dict(base, n=n + HASH_M), dict(base, n=n + 2 * HASH_M)]
+            if z < n:
+                hist.append(dict(base, d=z % n or 1, z=d))
+            hist += [dict(base, d=d + 1, z=z - 1), dict(base, d=d ^ 1 or 2, z=z ^ 1), base]
+            yield "gen_k_hash_collisions", hist
+            yield "gen_k_hash_collisions_reversed", hist[::-1]
+        # --- the same (key, hash) under different orders and hash functions, in both orders
+        d = rng.randrange(1, 1 << 60)
+        z = rng.getrandbits(159)
+        orders = [k1, r1, toys[-1].n, N384, k1 + HASH_M]
+        hist = [{"op": "gen_k", "n": n, "d": d, "z": z} for n in orders + orders[::-1]]
+        yield "gen_k_configurations", hist
+        hist = [{"op": "gen_k", "n": n, "d": d, "z": z, "hashf": hf} for n in (k1, r1) for hf in ("sha256", "sha512", "sha1", "sha384", "sha256")]
+        yield "gen_k_hash_functions", hist + hist[::-1]
+        # --- signing: colliding hashes / keys on one generator object; the same (d, z) on several curves in both orders
+        for cur, c in [(c.params(), c) for c in toys] + [("secp256k1", PROD["secp256k1"]), ("secp256r1", PROD["secp256r1"])]:
+            cur = cur if isinstance(cur, str) else list(cur)
+            n = c.n
+            d = rng.randrange(1, max(2, n - HASH_M) if n > HASH_M + 2 else n)
+            z = rng.getrandbits(250) + HASH_M * 8
+            base = {"op": "sign", "curve": cur, "d": d, "z": z}
+            hist = [base] + [dict(base, z=v) for v in _collide(z, 1, 1 << 256)] + [dict(base, d=v) for v in _collide(d, 1, n)] + [base]
+            yield "sign_hash_collisions", hist
+            yield "sign_hash_collisions_reversed", hist[::-1]
+        same_n = [c for c in SMALL if c.n == 13][:3]
+        d, z = rng.randrange(1, 13), rng.getrandbits(256) or 1
+        hist = [{"op": "sign", "curve": list(c.params()), "d": d, "z": z} for c in same_n + same_n[::-1]]
+        yield "sign_same_order_other_curve", hist
+        d, z = rng.randrange(1, 1 << 200), rng.getrandbits(256) or 1
+        hist = [{"op": "sign", "curve": cur, "d": d, "z": z} for cur in ("secp256k1", "secp256r1", "secp256k1", "secp256r1")]
+        yield "sign_production_curves_both_orders", hist
+        # --- verification and recovery: a valid signature, its neighbours under hash(), other keys, and again
+        for cur, c in [(list(c.params()), c) for c in toys[-3:]] + [("secp256k1", PROD["secp256k1"]), ("secp256r1", PROD["secp256r1"])]:
+            n = c.n
+            d, z, (r, s, recid) = _sig_for(c, rng)
+            Q = list(c.mul(d, c.g))
+            Q2 = list(c.mul(rng.randrange(1, n), c.g))
+            base = {"op": "verify", "curve": cur, "q": Q, "z": z, "r": r, "s": s}
+            hist = [base] + [dict(base, z=v) for v in _collide(z, 1, 1 << 256)] + [dict(base, r=v) for v in _collide(r, 1, n)]
+            hist += [dict(base, s=v) for v in _collide(s, 1, n)] + [dict(base, q=Q2), dict(base, q=None), dict(base, s=n - s), base]
+            yield "verify_hash_collisions", hist
+            yield "verify_hash_collisions_reversed", hist[::-1]
+            rb = {"op": "recover", "curve": cur, "z": z, "r": r, "s": s, "yp": None}
+            hist = [rb, dict(rb, yp=recid & 1), dict(rb, yp=(recid & 1) ^ 1)] + [dict(rb, z=v) for v in _collide(z, 1, 1 << 256)]
+            hist += [dict(rb, s=v) for v in _collide(s, 1, n)] + [dict(rb, yp=(recid & 1) + 2 * HASH_M), rb]
+            yield "recover_hash_collisions", hist
+            yield "recover_hash_collisions_reversed", hist[::-1]
+
+
+def presentation_ops(rng, tier):
+    for c, cur in [(SMALL[5], list(SMALL[5].params())), (BIG[-1], list(BIG[-1].params())), (PROD["secp256k1"], "secp256k1"), (PROD["secp256r1"], "secp256r1")]:
+        for _ in range(4 if tier == "thorough" else 1):
+            d, z, (r, s, recid) = _sig_for(c, rng)
+            Q = list(c.mul(d, c.g))
+            yield {"op": "gen_k", "n": c.n, "d": d, "z": z}
+            yield {"op": "gen_k", "n": c.n, "d": 1, "z": 1}
+            yield {"op": "sign", "curve": cur, "d": d, "z": z}
+            yield {"op": "sign", "curve": cur, "d": 1, "z": 1}
+            yield {"op": "verify", "curve": cur, "q": Q, "z": z, "r": r, "s": s}
+            yield {"op": "verify", "curve": cur, "q": Q, "z": z + 1, "r": r, "s": s}
+            yield {"op": "verify", "curve": cur, "q": Q, "z": 0, "r": r, "s": s}
+            yield {"op": "recover", "curve": cur, "z": z, "r": r, "s": s, "yp": recid & 1}
+            yield {"op": "recover", "curve": cur, "z": z, "r": r, "s": s, "yp": None}
+
+
+def history_prop_cases(rng, tier):
+    for name, ops in history_ops(rng, tier):
+        yield PropCase("history", {"family": name, "ops": ops}, (lambda ops=ops: chk_history(ops)))
+    for op in presentation_ops(rng, tier):
+        yield PropCase("presentation", {"op": op}, (lambda op=op: chk_presentation(op)))
+    n = SECP256K1["n"]
+    for i in range(6 if tier == "thorough" else 2):
+        d, z = rng.randrange(1, n), rng.getrandbits(256) or 1
+        for tamper in (False, True):
+            yield PropCase("key_presentation", {"d": d, "z": z, "tamper": tamper}, (lambda d=d, z=z, t=tamper: chk_key_presentation(d, z, t)))
+        # Key.sign after Key.sign of a hash colliding under hash(), same key object semantics
+        for z2 in _collide(z, 1, 1 << 256)[:2]:
+            yield PropCase("key_presentation", {"d": d, "z": z2, "tamper": False}, (lambda d=d, z2=z2: chk_key_presentation(d, z2, False)))
+
+
+def op_case(op):
+    """the correspondence case of a toy-curve / nonce op (the model evaluates every line on its own)"""
+    if op["op"] == "gen_k" and not op.get("hashf"):
+        return case_gen_k(op["n"], op["d"], op["z"])
+    if op["op"] == "gen_k" or isinstance(op.get("curve"), str):
+        return None
+    P = tuple(op["curve"])
+    if op["op"] == "sign":
+        return case_sign(P, op["d"], op["z"], min(P[5] + 2, 60))
+    if op["op"] == "verify":
+        return case_verify(P, None if op["q"] is None else tuple(op["q"]), op["z"], op["r"], op["s"])
+    if op["op"] == "recover":
+        return case_recover(P, op["z"], op["r"], op["s"], op.get("yp"))
+    return None
+
+
+def history_model_cases(rng, tier):
+    for name, ops in history_ops(rng, "quick"):
+        if name.endswith("_reversed") and tier != "thorough":
+            continue
+        for op in ops:
+            if op["op"] != "gen_k" and not isinstance(op.get("curve"), str) and tuple(op["curve"])[0].bit_length() > 40 and tier != "thorough":
+                continue                   # the extracted affine model is slow on the 2^61 curve
+            c = op_case(op)
+            if c is not None:
+                yield c
+
 # ------------------------------------------------------------------------------------------------
 # production curves: one worker process per arithmetic configuration
 _WORK = {}
@@ -661,6 +977,18 @@ def prod_case_list(tier):
         for z in (0,):
             add("verify", "F", curve=name, q=Q, z=0, r=rng.randrange(1, n), s=rng.randrange(1, n))
             add("sign", "!E_VALUE", curve=name, d=d, z=0)
+        # a history inside each worker process: hashes / keys colliding under Python's hash(), then the first pair again
+        d = rng.randrange(1, n - 8 * HASH_M)
+        z1 = rng.getrandbits(250) + 8 * HASH_M
+        for (dd, zz) in [(d, z1), (d, z1 + HASH_M), (d + HASH_M, z1), (d, z1 + 5 * HASH_M), (d, z1 - 3 * HASH_M), (d, z1)]:
+            k = E.rfc6979_k(n, dd, _z_octets(zz))
+            sig = c.sig_from_nonce(dd, zz, k)
+            add("gen_k", canon(k), n=n, d=dd, z=zz)
+            add("sign", canon(sig), curve=name, d=dd, z=zz)
+            add("verify", "T", curve=name, q=c.mul(dd, c.g), z=zz, r=sig[0], s=sig[1])
+            add("verify", canon(c.verify(c.mul(d, c.g), zz + HASH_M, sig[0], sig[1])), curve=name, q=c.mul(d, c.g), z=zz + HASH_M, r=sig[0], s=sig[1])
+            if name == "secp256k1":
+                add("keysign", canon(_der(sig[0], sig[1])), d=dd, h=_z_octets(zz).hex())
     return cases
 
 
@@ -670,13 +998,14 @@ def _start_workers(tier):
     cl = prod_case_list(tier)
     _WORK["cases"] = cl
     payload = _json.dumps([c for c, _ in cl]).encode()
-    for nat in ("openssl", "none"):
+    rev = _json.dumps([c for c, _ in cl][::-1]).encode()      # the same operations in the opposite order (order independence)
+    for nat in ("openssl", "none", "openssl_reversed"):
         env = dict(os.environ)
-        env["PYCOIN_NATIVE"] = nat
+        env["PYCOIN_NATIVE"] = nat.split("_")[0]
         env["PYTHONPATH"] = REPO + ":" + os.path.join(VERIF, "harness")
         pr = _subprocess.Popen([PY, "-W", "ignore", os.path.join(VERIF, "harness", "c01_worker.py")], stdin=_subprocess.PIPE,
                                stdout=_subprocess.PIPE, stderr=_subprocess.PIPE, env=env)
-        pr.stdin.write(payload)
+        pr.stdin.write(rev if nat.endswith("reversed") else payload)
         pr.stdin.close()
         _WORK[nat] = pr
 
@@ -685,7 +1014,7 @@ def _collect_workers():
     if "res" in _WORK:
         return _WORK["res"]
     res = {}
-    for nat in ("openssl", "none"):
+    for nat in ("openssl", "none", "openssl_reversed"):
         pr = _WORK[nat]
         out = pr.stdout.read()
         err = pr.stderr.read().decode("utf8", "replace")
@@ -694,6 +1023,7 @@ def _collect_workers():
             res[nat] = _json.loads(out)
         except Exception:
             res[nat] = {"backend": {"error": err[-400:]}, "results": []}
+    res["openssl_reversed"]["results"] = res["openssl_reversed"]["results"][::-1]
     _WORK["res"] = res
     return res
 
@@ -708,6 +1038,9 @@ def chk_prod(i):
     a, b = ro[i], rn[i]
     if a != b:
         return {"kind": "configurations-disagree", "openssl": a, "none": b}
+    rr = res["openssl_reversed"]["results"]
+    if len(rr) == len(ro) and rr[i] != a:
+        return {"kind": "result-depends-on-the-order-of-calls", "in_order": a, "reversed_order": rr[i]}
     if expect is not None and a != expect:
         return {"kind": "differs-from-reference", "impl": a, "reference": expect}
     if case["op"] == "recover" and expect is None and a.startswith("["):
@@ -736,6 +1069,8 @@ def chk_backends():
 
 def prop_cases(rng, tier):
     _start_workers(tier)
+    for pc in history_prop_cases(rng_for(int(os.environ.get("VERIF_SEED", "0") or 0), PROP, "history"), tier):
+        yield pc
     for pc in toy_prop_cases(rng, tier):
         yield pc
     yield PropCase("backends", {}, chk_backends)
@@ -786,6 +1121,12 @@ def replay_input(check, inp):
     if check == "backends":
         _start_workers("quick")
         return chk_backends()
+    if check == "history":
+        return chk_history(inp["ops"])
+    if check == "presentation":
+        return chk_presentation(inp["op"])
+    if check == "key_presentation":
+        return chk_key_presentation(inp["d"], inp["z"], inp["tamper"])
     return {"kind": "unknown-check"}
 
 
@@ -839,6 +1180,38 @@ def search(rng, tier, disagreements, known_ids):
                         if 0 < z:
                             cands.append(PropCase("toy_sign", {"curve": c.params(), "d": d, "z": z},
                                                   (lambda P=c.params(), d=d, z=z: chk_toy_sign(P, d, z))))
+        except Exception:
+            continue
+    # histories around each disagreeing case: the case after its neighbours under Python's hash(), after the same call on
+    # another configuration, and its exotic presentations
+    for dis in disagreements[:40]:
+        t = dis["case"].split(" ")
+        try:
+            op = None
+            if t[0] == "gen_k":
+                op = {"op": "gen_k", "n": _hx(t[2]), "d": _hx(t[3]), "z": _hx(t[4])}
+                nb = [dict(op, z=v) for v in _collide(op["z"], 0, 1 << 256)] + [dict(op, d=v) for v in _collide(op["d"], 0, op["n"])]
+                nb += [dict(op, n=op["n"] + HASH_M), dict(op, n=SECP256K1["n"]), dict(op, n=SECP256R1["n"])]
+            elif t[0] == "sign":
+                P = [_hx(x) for x in t[3:9]]
+                op = {"op": "sign", "curve": P, "d": _hx(t[9]), "z": _hx(t[10])}
+                nb = [dict(op, z=v) for v in _collide(op["z"], 1, 1 << 256)] + [dict(op, d=v) for v in _collide(op["d"], 1, P[5])]
+                nb += [dict(op, curve=list(c.params())) for c in SMALL if c.n == P[5] and list(c.params()) != P][:2]
+            elif t[0] == "verify":
+                P = [_hx(x) for x in t[1:7]]
+                Q = None if t[7] == "N" else [_hx(t[7]), _hx(t[8])]
+                op = {"op": "verify", "curve": P, "q": Q, "z": _hx(t[9]), "r": _hx(t[10]), "s": _hx(t[11])}
+                nb = [dict(op, z=v) for v in _collide(op["z"], 1, 1 << 256)] + [dict(op, r=v) for v in _collide(op["r"], 1, P[5])]
+                nb += [dict(op, s=v) for v in _collide(op["s"], 1, P[5])] + [dict(op, s=P[5] - op["s"])]
+            elif t[0] == "recover":
+                P = [_hx(x) for x in t[1:7]]
+                op = {"op": "recover", "curve": P, "z": _hx(t[7]), "r": _hx(t[8]), "s": _hx(t[9]), "yp": _hx(t[10])}
+                nb = [dict(op, z=v) for v in _collide(op["z"], 1, 1 << 256)] + [dict(op, s=v) for v in _collide(op["s"], 1, P[5])]
+                nb += [dict(op, yp=None), dict(op, yp=0), dict(op, yp=1)]
+            if op is not None:
+                for ops in ([op], nb + [op], [op] + nb + [op]):
+                    cands.append(PropCase("history", {"family": "search", "ops": ops}, (lambda ops=ops: chk_history(ops))))
+                cands.append(PropCase("presentation", {"op": op}, (lambda op=op: chk_presentation(op))))
         except Exception:
             continue
     cands += list(prop_cases(rng, tier))
